@@ -311,6 +311,7 @@ func TestC17(t *testing.T) {
 		"alias declarations and constant names) asserts reflect type identity of every `type X = other.X` and one numeric value per enum constant name across all packages; values decoded by one " +
 		"dialect encode identically through every other dialect sharing the id; user dialects with injected duplicate ids / malformed structs (incl. re-initialisation of a mutated Dialect value) " +
 		"must be rejected by Initialize. distinct = (dialect, message) pairs + constants + rejection cases")
+	rep.RuleAdd("Rounds 12-15: ReadWriters re-initialised after in-place changes, enums of every integer kind, typed-nil prototypes, ids at 2^24, Initialize retried on the same objects.")
 	rep.Assume("published CRC_EXTRA table reproduced from the MAVLink C library (harness/ref/golden.go)")
 	seed := vh.Seed()
 	r := vh.Sub(seed, "c17")
